@@ -9,17 +9,18 @@
 // ============================================================================ allocator seam
 namespace ledger {
 static int fill = -1;   /* >= 0: fresh allocations made inside library calls are filled with this byte */
-static bool in_sut = false; static int64_t live = 0; static int64_t fail_countdown = 0; static uint64_t allocs_in_op = 0, failures = 0;
+static bool in_sut = false; static int64_t live = 0; static int64_t fail_countdown = 0; static uint64_t allocs_in_op = 0, failures = 0; static size_t fail_min_size = 0;   /* only requests of at least that many bytes count towards (and are hit by) the countdown */
 static const uint64_t TAG_SUT = 0x5355545f414c4c4fULL, TAG_OTHER = 0x4f544845525f414cULL;
 #ifndef VERIF_NO_LEDGER
 static void* alloc(size_t n, bool nothrow) {
-    if (in_sut) { ++allocs_in_op; if (fail_countdown > 0 && --fail_countdown == 0) { ++failures; if (nothrow) return 0; throw std::bad_alloc(); } }
+    if (in_sut) { ++allocs_in_op; if (fail_countdown > 0 && n >= fail_min_size && --fail_countdown == 0) { ++failures; if (nothrow) return 0; throw std::bad_alloc(); } }
     uint64_t* p = (uint64_t*)malloc(n + 16); if (!p) { if (nothrow) return 0; throw std::bad_alloc(); }
     p[0] = in_sut ? TAG_SUT : TAG_OTHER; p[1] = n; if (in_sut) { ++live; if (fill >= 0) memset(p + 2, fill, n); } return p + 2;
 }
 static void release(void* v) { if (!v) return; uint64_t* p = (uint64_t*)v - 2; if (p[0] == TAG_SUT) --live; p[0] = 0; free(p); }
 #endif
 struct Scope { bool prev; Scope() : prev(in_sut) { in_sut = true; } ~Scope() { in_sut = prev; } };
+struct Unscope { bool prev; Unscope() : prev(in_sut) { in_sut = false; } ~Unscope() { in_sut = prev; } };   /* application callbacks invoked from inside a library call */
 #define SUT(...) do { ledger::Scope sut_scope_; __VA_ARGS__; } while (0)
 }
 #ifndef VERIF_NO_LEDGER   /* the valgrind flavour keeps the default allocator (valgrind replaces it itself) */
